@@ -3,7 +3,7 @@
    dispatcher, packagers and mediator service; [pack]/[unpack_pkgr] are C01's. *)
 From Coq Require Import List NArith Bool.
 Import ListNotations.
-From VF Require Import C01.Model C01.Proofs C14.Model C14.Proofs C14.Opaque C14.OpaqueProofs.
+From VF Require Import C01.Model C01.Proofs C14.Model C14.Proofs C14.Opaque C14.OpaqueProofs C14.Tables gen.Gen_C14.
 Local Open Scope N_scope.
 
 (* ------------------------------------------------------------------------------------------------------------
@@ -346,6 +346,15 @@ Proof.
   destruct (pick_in _ _ _ E) as [H|H]; [discriminate|right; exact H].
 Qed.
 Print Assumptions selected_is_listed_or_default.
+
+(* the tables of the model ARE the tables of the source: Gen_C14.v is regenerated on every run from the switch
+   statements of outbound.go mediaTypeProfile / createForwardMessage / packForward and packager.go getCTYAndPacker /
+   isMediaTypeForLegacyPacker (harness/c14gen, go/ast); for EVERY media type the model's priority tier, packer family,
+   forward version and 'to' form are what the source's clauses say *)
+Theorem media_type_tables_match_source : forall m,
+  tier_of m = src_tier m /\ family m = src_family m /\ src_consistent m = true.
+Proof. intros m. destruct m; vm_compute; repeat split. Qed.
+Print Assumptions media_type_tables_match_source.
 
 Example media_type_nonvacuous :
   media_type [M_Other; M_RFC19; M_AIP2RFC587; M_Indy; M_V2EncV1Plain] M_DIDCommV2 = M_V2EncV1Plain /\
